@@ -63,6 +63,9 @@ class Lowerer:
             return Frac.of(R, 0)
         if op in ("FMIN", "FMAX"):
             a, b = self.value(args[0]), self.value(args[1])
+            folded = self._fold_clamp(op, a, b)
+            if folded is not None:
+                return folded
             lt = self._decide_cmp(("LTv", n), a, b, strict=True, node=n)
             if op == "FMIN":
                 return a if lt else b
@@ -123,6 +126,42 @@ class Lowerer:
         if op == "ATAN2":
             return self.atan2(self.value(args[0]), self.value(args[1]))
         raise EngineError(f"op {op} not supported by the ring lowering")
+
+    def _fold_clamp(self, op, a, b):
+        """fmin(x, K) = x when x <= K is VALID under the requires / atom constraints / path condition (and symmetrically for
+        fmax): a clamp that can never bite in real arithmetic (it only guards against rounding) is not a control path.
+        Both branches agree where x = K, so the folding is exact.  Needs the SMT context of the enclosing trace."""
+        ctx = getattr(self, "smt_ctx", None)
+        if ctx is None or (a.is_const() == b.is_const()):
+            return None
+        x, K = (a, b) if b.is_const() else (b, a)
+        # certificate first (pure ring arithmetic): x is a component of a unit vector whose other two components feed an
+        # atan2 of the same graph (Euler angles from a rotation matrix: asin(-R20) with atan2(R21, R22), atan2(R10, R00)):
+        # x^2 + y^2 + z^2 - 1 = 0 identically, hence |x| <= 1 and a clamp to [-1, 1] is the identity
+        try:
+            if abs(K.const_value()) == 1:
+                if not hasattr(self, "_atan2_nodes"):
+                    self._atan2_nodes = [args_ for (op_, args_, _) in self.g.nodes if op_ == "ATAN2"]
+                for yn, zn in self._atan2_nodes:
+                    y, z = self.value(yn), self.value(zn)
+                    if (x * x + y * y + z * z - Frac.of(self.R, 1)).num.is_zero():
+                        self.n_folded_clamps = getattr(self, "n_folded_clamps", 0) + 1
+                        return x
+        except (EngineError, TimeoutError):
+            pass
+        try:
+            import z3
+            from . import smt
+            rs, assum = ctx()
+            zx, zk = rs.frac(x), rs.frac(K)
+            goal = (zx <= zk) if op == "FMIN" else (zx >= zk)
+            st, _, _, _ = smt.check(assum + rs.atom_constraints(), goal, 5, want_model=False)
+        except Exception:
+            return None
+        if st == "proved":
+            self.n_folded_clamps = getattr(self, "n_folded_clamps", 0) + 1
+            return x
+        return None
 
     # ---------------- conditions ----------------
     def cond(self, n) -> bool:
